@@ -722,3 +722,242 @@ Proof.
     unfold var_force. rewrite Rmult_comm, <- tsum_scale'. apply tsum_ext. intros b _.
     unfold xat, dxs. rewrite Nat.sub_0_r. cbn [n0 Rops]. unfold zero. cbn [n0 Rops]. ring.
 Qed.
+
+(* ------------------------------------------------------------------ component kernels: centre-of-mass layer *)
+Definition gd_wf (g : GD) : Prop :=
+  match gd_dummy g with Some _ => gd_atoms g = [] | None => gd_mass Rops g <> 0 end.
+
+Fixpoint wsum (l : list (R * R * V3)) (D : list V3) : V3 :=
+  match l, D with a :: l', d :: D' => v3add Rops (v3scale Rops (am a) d) (wsum l' D') | _, _ => vzero Rops end.
+(* the direction in which the centre of mass moves *)
+Definition comdir (g : GD) (D : list V3) : V3 :=
+  match gd_dummy g with Some _ => vzero Rops | None => vdiv Rops (wsum (gd_atoms g) D) (gd_mass Rops g) end.
+
+Lemma move_atoms_mass l t D : map am (move_atoms l t D) = map am l.
+Proof. revert D. induction l as [|a l IH]; intros D; destruct D as [|d D']; try reflexivity. cbn [move_atoms map]. rewrite IH. reflexivity. Qed.
+Lemma gd_mass_move g t D : gd_mass Rops (move_gd g t D) = gd_mass Rops g.
+Proof. unfold gd_mass, move_gd. cbn [gd_atoms]. rewrite move_atoms_mass. reflexivity. Qed.
+Lemma move_atoms_length l t D : length (move_atoms l t D) = length l.
+Proof. rewrite <- (map_length am), move_atoms_mass, map_length. reflexivity. Qed.
+
+Lemma msum_move (l : list (R * R * V3)) t D j :
+  vget j (vsum Rops (map (fun a => v3scale Rops (am a) (ap a)) (move_atoms l t D))) =
+  vget j (vsum Rops (map (fun a => v3scale Rops (am a) (ap a)) l)) + t * vget j (wsum l D).
+Proof.
+  revert D. induction l as [|a l IH]; intros D; destruct D as [|d D']; cbn [move_atoms map wsum];
+    rewrite ?vget_zero; try ring.
+  rewrite !vsum_cons, !vget_add, IH, !vget_scale. unfold am, ap. cbn [fst snd]. rewrite vget_add, vget_scale. ring.
+Qed.
+
+Lemma gd_atoms_move (g : GD) t D : gd_atoms (move_gd g t D) = move_atoms (gd_atoms g) t D.
+Proof. reflexivity. Qed.
+Lemma gd_dummy_move (g : GD) t D : gd_dummy (move_gd g t D) = gd_dummy g.
+Proof. reflexivity. Qed.
+
+Lemma gd_com_move (g : GD) t D : gd_wf g ->
+  gd_com Rops (move_gd g t D) = v3add Rops (gd_com Rops g) (v3scale Rops t (comdir g D)).
+Proof.
+  intros Hwf. unfold gd_wf in Hwf. unfold gd_com, comdir. rewrite gd_dummy_move.
+  destruct (gd_dummy g) as [p|] eqn:Ed.
+  - apply v3_ext. intros j. rewrite vget_add, vget_scale, vget_zero. ring.
+  - apply v3_ext. intros j. rewrite gd_mass_move. rewrite vget_add, vget_scale, !vget_div.
+    rewrite gd_atoms_move, msum_move. field. exact Hwf.
+Qed.
+
+Lemma wgrad_dot (g : GD) (G : V3) D : gd_wf g -> dot_list (wgrad Rops g G) D = v3dot Rops G (comdir g D).
+Proof.
+  intros Hwf. unfold gd_wf in Hwf. unfold wgrad, comdir. destruct (gd_dummy g) as [p|] eqn:Ed.
+  - rewrite Hwf. cbn [map dot_list]. rewrite v3dot_get, !vget_zero. ring.
+  - set (M := gd_mass Rops g) in *. clearbody M.
+    rewrite v3dot_get, !vget_div.
+    revert D. induction (gd_atoms g) as [|a l IH]; intros D; destruct D as [|d D']; cbn [map dot_list wsum];
+      rewrite ?vget_zero; try (field; exact Hwf).
+    rewrite IH, !vget_add, !vget_scale, v3dot_get, !vget_scale. cbn [ndiv Rops]. field. exact Hwf.
+Qed.
+
+Lemma wgrad_length (g : GD) G : length (wgrad Rops g G) = length (gd_atoms g).
+Proof. unfold wgrad. apply map_length. Qed.
+
+Lemma move_gd_nil (g : GD) t : move_gd g t [] = g.
+Proof. destruct g as [l d]. unfold move_gd. cbn [gd_atoms gd_dummy]. destruct l; reflexivity. Qed.
+Lemma gnth_move (gs : list GD) t Ds i : gnth (move_gs gs t Ds) i = move_gd (gnth gs i) t (nth i Ds []).
+Proof.
+  unfold gnth. revert Ds i. induction gs as [|g gs' IH]; intros Ds i.
+  - cbn [move_gs]. destruct i; cbn [nth]; reflexivity.
+  - destruct Ds as [|D Ds']; cbn [move_gs].
+    + replace (nth i [] []) with (@nil V3) by (destruct i; reflexivity). rewrite move_gd_nil. reflexivity.
+    + destruct i as [|i']; cbn [nth]; [reflexivity|apply IH].
+Qed.
+
+Definition gds_wf (gs : list GD) (n : nat) : Prop := length gs = n /\ List.Forall gd_wf gs.
+Lemma gds_wf_nth gs n i : gds_wf gs n -> (i < n)%nat -> gd_wf (gnth gs i).
+Proof.
+  intros [Hl Hf] Hi. unfold gnth. rewrite Forall_forall in Hf. apply Hf. apply nth_In. lia.
+Qed.
+
+(* lines in the direction e through d: the elementary calculus facts *)
+Lemma line_sub (c1 c2 E1 E2 : V3) t :
+  v3sub Rops (v3add Rops c2 (v3scale Rops t E2)) (v3add Rops c1 (v3scale Rops t E1)) =
+  v3add Rops (v3sub Rops c2 c1) (v3scale Rops t (v3sub Rops E2 E1)).
+Proof. apply v3_ext. intros j. rewrite ?vget_sub, ?vget_add, ?vget_scale, ?vget_sub. ring. Qed.
+
+Lemma norm2_pos (d : V3) : v3norm2 Rops d <> 0 -> 0 < v3norm2 Rops d.
+Proof.
+  destruct d as [[x y] z]. unfold v3norm2, v3dot. cbn [nadd nmul Rops]. intros H.
+  pose proof (Rle_0_sqr x). pose proof (Rle_0_sqr y). pose proof (Rle_0_sqr z). unfold Rsqr in *. lra.
+Qed.
+
+Lemma norm_dir (d e : V3) : v3norm2 Rops d <> 0 ->
+  is_derive (fun t => vnorm Rops (v3add Rops d (v3scale Rops t e))) 0 (v3dot Rops (vunit Rops d) e).
+Proof.
+  intros Hd. pose proof (norm2_pos d Hd) as Hpos.
+  assert (Hs : 0 < sqrt (v3norm2 Rops d)) by (apply sqrt_lt_R0; exact Hpos).
+  unfold vunit, vnorm. cbn [nltb nsqrt Rops]. unfold zero. cbn [n0 Rops].
+  replace (Rltb 0 (sqrt (v3norm2 Rops d))) with true by (symmetry; apply Rltb_true; exact Hs).
+  destruct d as [[x y] z], e as [[ex ey] ez].
+  unfold v3norm2, v3dot, v3add, v3scale, vdiv in *. cbn [nadd nmul ndiv nsqrt Rops] in *.
+  auto_derive.
+  - replace ((x + 0 * ex) * (x + 0 * ex) + (y + 0 * ey) * (y + 0 * ey) + (z + 0 * ez) * (z + 0 * ez)) with (x * x + y * y + z * z) by ring.
+    exact Hpos.
+  - replace ((x + 0 * ex) * (x + 0 * ex) + (y + 0 * ey) * (y + 0 * ey) + (z + 0 * ez) * (z + 0 * ez)) with (x * x + y * y + z * z) by ring.
+    field. lra.
+Qed.
+
+(* ---- distance ---- *)
+Lemma pdist_nocell pbc (p1 p2 : V3) : pdist Rops pbc None p1 p2 = v3sub Rops p2 p1.
+Proof. destruct pbc; reflexivity. Qed.
+Lemma pdist_nopbc cell (p1 p2 : V3) : pdist Rops false cell p1 p2 = v3sub Rops p2 p1.
+Proof. reflexivity. Qed.
+(* the minimum-image convention does not enter: no cell, or forceNoPBC *)
+Definition plain (pbc : bool) (cell : option V3) : Prop := cell = None \/ pbc = false.
+Lemma pdist_plain pbc cell (p1 p2 : V3) : plain pbc cell -> pdist Rops pbc cell p1 p2 = v3sub Rops p2 p1.
+Proof. intros [->| ->]; [apply pdist_nocell|apply pdist_nopbc]. Qed.
+
+Lemma dot_lists_2 (a b : list V3) Ds : dot_lists [a; b] Ds = dot_list a (nth 0 Ds []) + dot_list b (nth 1 Ds []).
+Proof.
+  destruct Ds as [|D0 [|D1 Ds']]; cbn [dot_lists nth].
+  - destruct a, b; cbn [dot_list]; ring.
+  - destruct b; cbn [dot_list]; ring.
+  - ring.
+Qed.
+Lemma dot_lists_3 (a b c : list V3) Ds :
+  dot_lists [a; b; c] Ds = dot_list a (nth 0 Ds []) + dot_list b (nth 1 Ds []) + dot_list c (nth 2 Ds []).
+Proof.
+  destruct Ds as [|D0 [|D1 [|D2 Ds']]]; cbn [dot_lists nth].
+  - destruct a, b, c; cbn [dot_list]; ring.
+  - destruct b, c; cbn [dot_list]; ring.
+  - destruct c; cbn [dot_list]; ring.
+  - ring.
+Qed.
+Lemma shape_2 (g0 g1 : GD) (gs : list GD) (a b : list V3) : gs = [g0; g1] ->
+  length a = length (gd_atoms g0) -> length b = length (gd_atoms g1) -> shape_ok [a; b] gs.
+Proof. intros -> H1 H2. cbn [shape_ok]. auto. Qed.
+Lemma gds_2 (gs : list GD) : gds_wf gs 2 -> gs = [gnth gs 0; gnth gs 1].
+Proof. intros [Hl _]. destruct gs as [|g0 [|g1 [|g2 r]]]; cbn [length] in Hl; try lia. reflexivity. Qed.
+Lemma gds_3 (gs : list GD) : gds_wf gs 3 -> gs = [gnth gs 0; gnth gs 1; gnth gs 2].
+Proof. intros [Hl _]. destruct gs as [|g0 [|g1 [|g2 [|g3 r]]]]; cbn [length] in Hl; try lia. reflexivity. Qed.
+
+Lemma v3dot_neg_l (a b : V3) : v3dot Rops (vneg Rops a) b = - v3dot Rops a b.
+Proof. rewrite !v3dot_get, !vget_neg. ring. Qed.
+Lemma v3dot_sub_r (a b c : V3) : v3dot Rops a (v3sub Rops b c) = v3dot Rops a b - v3dot Rops a c.
+Proof. rewrite !v3dot_get, !vget_sub. ring. Qed.
+Lemma v3dot_scale_l s (a b : V3) : v3dot Rops (v3scale Rops s a) b = s * v3dot Rops a b.
+Proof. rewrite !v3dot_get, !vget_scale. ring. Qed.
+
+Lemma dir_correct_distance pbc cell (gs : list GD) : gds_wf gs 2 -> plain pbc cell ->
+  v3norm2 Rops (v3sub Rops (gd_com Rops (gnth gs 1)) (gd_com Rops (gnth gs 0))) <> 0 ->
+  dir_correct (k_distance Rops pbc cell) gs.
+Proof.
+  intros Hwf Hpl Hne.
+  pose proof (gds_wf_nth gs 2 0 Hwf ltac:(lia)) as W0. pose proof (gds_wf_nth gs 2 1 Hwf ltac:(lia)) as W1.
+  split.
+  - unfold k_distance. cbn [snd]. apply (shape_2 (gnth gs 0) (gnth gs 1)); [apply gds_2; exact Hwf| |]; apply wgrad_length.
+  - intros Ds. unfold k_distance. cbn [fst snd]. rewrite dot_lists_2, !wgrad_dot by assumption.
+    rewrite !pdist_plain by exact Hpl.
+    apply (is_derive_ext (fun t => vnorm Rops (v3add Rops (v3sub Rops (gd_com Rops (gnth gs 1)) (gd_com Rops (gnth gs 0)))
+                                                (v3scale Rops t (v3sub Rops (comdir (gnth gs 1) (nth 1 Ds [])) (comdir (gnth gs 0) (nth 0 Ds []))))))).
+    + intros t. rewrite !gnth_move, !pdist_plain by exact Hpl. rewrite !gd_com_move by assumption. rewrite line_sub. reflexivity.
+    + evar_last; [apply norm_dir; exact Hne|]. rewrite v3dot_neg_l, v3dot_sub_r. ring.
+Qed.
+
+(* ---- distanceZ, fixed axis ---- *)
+Lemma dir_correct_distance_z pbc cell ax (gs : list GD) : gds_wf gs 2 -> plain pbc cell ->
+  dir_correct (k_distance_z Rops pbc cell ax) gs.
+Proof.
+  intros Hwf Hpl.
+  pose proof (gds_wf_nth gs 2 0 Hwf ltac:(lia)) as W0. pose proof (gds_wf_nth gs 2 1 Hwf ltac:(lia)) as W1.
+  split.
+  - unfold k_distance_z. cbn [snd]. apply (shape_2 (gnth gs 0) (gnth gs 1)); [apply gds_2; exact Hwf| |]; apply wgrad_length.
+  - intros Ds. unfold k_distance_z. cbn [fst snd]. rewrite dot_lists_2, !wgrad_dot by assumption.
+    apply (is_derive_ext (fun t => v3dot Rops ax (v3add Rops (v3sub Rops (gd_com Rops (gnth gs 0)) (gd_com Rops (gnth gs 1)))
+                                                (v3scale Rops t (v3sub Rops (comdir (gnth gs 0) (nth 0 Ds [])) (comdir (gnth gs 1) (nth 1 Ds []))))))).
+    + intros t. rewrite !gnth_move, !pdist_plain by exact Hpl. rewrite !gd_com_move by assumption. rewrite line_sub. reflexivity.
+    + rewrite v3dot_neg_l.
+      destruct ax as [[ax ay] az], (v3sub Rops (gd_com Rops (gnth gs 0)) (gd_com Rops (gnth gs 1))) as [[dx dy] dz],
+               (comdir (gnth gs 0) (nth 0 Ds [])) as [[ex ey] ez], (comdir (gnth gs 1) (nth 1 Ds [])) as [[fx fy] fz].
+      unfold v3dot, v3add, v3scale, v3sub. cbn [nadd nsub nmul Rops]. auto_derive; [exact I|ring].
+Qed.
+
+
+(* ---- distanceXY, fixed (unit) axis ---- *)
+Lemma Reqb_false a b : a <> b -> Reqb' a b = false.
+Proof. intros H. unfold Reqb'. destruct (Req_EM_T a b); [contradiction|reflexivity]. Qed.
+
+Definition vperp (d ax : V3) : V3 := v3sub Rops d (v3scale Rops (v3dot Rops d ax) ax).
+Lemma vperp_line (d e ax : V3) t : vperp (v3add Rops d (v3scale Rops t e)) ax = v3add Rops (vperp d ax) (v3scale Rops t (vperp e ax)).
+Proof.
+  unfold vperp. apply v3_ext. intros j.
+  rewrite ?vget_sub, ?vget_add, ?vget_scale, ?vget_sub, ?vget_scale, !v3dot_get, ?vget_add, ?vget_scale. ring.
+Qed.
+Lemma vperp_orth (d ax : V3) : v3norm2 Rops ax = 1 -> v3dot Rops (vperp d ax) ax = 0.
+Proof.
+  unfold vperp, v3norm2. rewrite ?v3dot_get, ?vget_sub, ?vget_scale, ?v3dot_get. intros H.
+  set (a := vget AX ax) in *. set (b := vget AY ax) in *. set (c := vget AZ ax) in *.
+  set (x := vget AX d). set (y := vget AY d). set (z := vget AZ d).
+  replace ((x - (x * a + y * b + z * c) * a) * a + (y - (x * a + y * b + z * c) * b) * b + (z - (x * a + y * b + z * c) * c) * c)
+    with ((x * a + y * b + z * c) * (1 - (a * a + b * b + c * c))) by ring.
+  rewrite H. ring.
+Qed.
+
+Lemma dir_correct_distance_xy pbc cell ax (gs : list GD) : gds_wf gs 2 -> plain pbc cell -> v3norm2 Rops ax = 1 ->
+  v3norm2 Rops (vperp (v3sub Rops (gd_com Rops (gnth gs 0)) (gd_com Rops (gnth gs 1))) ax) <> 0 ->
+  dir_correct (k_distance_xy Rops pbc cell ax) gs.
+Proof.
+  intros Hwf Hpl Hax Hne.
+  pose proof (gds_wf_nth gs 2 0 Hwf ltac:(lia)) as W0. pose proof (gds_wf_nth gs 2 1 Hwf ltac:(lia)) as W1.
+  set (d0 := v3sub Rops (gd_com Rops (gnth gs 0)) (gd_com Rops (gnth gs 1))) in *.
+  pose proof (norm2_pos _ Hne) as Hpos.
+  assert (Hs : sqrt (v3norm2 Rops (vperp d0 ax)) <> 0) by (apply Rgt_not_eq, sqrt_lt_R0; exact Hpos).
+  assert (Ev : forall gs', fst (k_distance_xy Rops pbc cell ax gs') =
+           vnorm Rops (vperp (pdist Rops pbc cell (gd_com Rops (gnth gs' 1)) (gd_com Rops (gnth gs' 0))) ax)).
+  { intros gs'. unfold k_distance_xy. cbv zeta. fold (vperp (pdist Rops pbc cell (gd_com Rops (gnth gs' 1)) (gd_com Rops (gnth gs' 0))) ax).
+    destruct (neqb Rops _ (zero Rops)); reflexivity. }
+  assert (Eg : snd (k_distance_xy Rops pbc cell ax gs) =
+           [wgrad Rops (gnth gs 0) (v3scale Rops (1 / vnorm Rops (vperp d0 ax)) (vperp d0 ax));
+            wgrad Rops (gnth gs 1) (v3scale Rops (-1 * (1 / vnorm Rops (vperp d0 ax))) (vperp d0 ax))]).
+  { unfold k_distance_xy. cbv zeta. rewrite !pdist_plain by exact Hpl. fold d0. fold (vperp d0 ax).
+    unfold vnorm. cbn [neqb nsqrt Rops]. unfold zero. cbn [n0 Rops]. rewrite Reqb_false by exact Hs. reflexivity. }
+  split.
+  - rewrite Eg. apply (shape_2 (gnth gs 0) (gnth gs 1)); [apply gds_2; exact Hwf| |]; apply wgrad_length.
+  - intros Ds. rewrite Eg, dot_lists_2, !wgrad_dot by assumption.
+    apply (is_derive_ext (fun t => vnorm Rops (v3add Rops (vperp d0 ax)
+              (v3scale Rops t (vperp (v3sub Rops (comdir (gnth gs 0) (nth 0 Ds [])) (comdir (gnth gs 1) (nth 1 Ds []))) ax))))).
+    + intros t. rewrite Ev, !gnth_move, !pdist_plain by exact Hpl. rewrite !gd_com_move by assumption.
+      rewrite line_sub, vperp_line. reflexivity.
+    + evar_last; [apply norm_dir; exact Hne|].
+      (* unit(v).(e - (e.ax) ax) = (v/x).e because v is orthogonal to the axis *)
+      pose proof (vperp_orth d0 ax Hax) as Ho.
+      set (v := vperp d0 ax) in *. set (e0 := comdir (gnth gs 0) (nth 0 Ds [])). set (e1 := comdir (gnth gs 1) (nth 1 Ds [])).
+      unfold vunit, vnorm in *. cbn [nltb nsqrt Rops]. unfold zero. cbn [n0 Rops].
+      replace (Rltb 0 (sqrt (v3norm2 Rops v))) with true by (symmetry; apply Rltb_true; apply sqrt_lt_R0; exact Hpos).
+      unfold vperp. rewrite !v3dot_get in *. rewrite ?vget_div, ?vget_sub, ?vget_scale, ?v3dot_get, ?vget_sub.
+      set (n := sqrt (v3norm2 Rops v)) in *.
+      set (vx := vget AX v) in *. set (vy := vget AY v) in *. set (vz := vget AZ v) in *.
+      set (a := vget AX ax) in *. set (b := vget AY ax) in *. set (c := vget AZ ax) in *.
+      clearbody n vx vy vz a b c. clear - Hs Ho.
+      set (S := (vget AX e0 - vget AX e1) * a + (vget AY e0 - vget AY e1) * b + (vget AZ e0 - vget AZ e1) * c).
+      transitivity ((vx * (vget AX e0 - vget AX e1) + vy * (vget AY e0 - vget AY e1) + vz * (vget AZ e0 - vget AZ e1)) / n
+                    - S * (vx * a + vy * b + vz * c) / n).
+      { unfold S. field. exact Hs. }
+      rewrite Ho. field. exact Hs.
+Qed.
